@@ -634,6 +634,84 @@ def r7_null(ctx, prog):
                 r.violation(f['qname'], 'unchecked %s' % v, '%s holds the %s and reaches line %s without a NULL test: undefined behaviour / exception (-> exit) for inputs that make it NULL' % (v, why, line), file=f['file'], line=line, path=path)
 
 
+# --------------------------------------------------------------------------------------- R8: no free after ownership went to the session
+def owning_setters(prog):
+    """Session setters whose pointer argument the session frees later: the field they store into is deleted / recycled / freed by Session::resetOp or ~Session."""
+    freed = set()
+    for q in ('Session::resetOp', 'Session::~Session'):
+        for f in prog.fns(q):
+            for n in walk(f['body']):
+                if n.get('k') == 'Delete' and n['e'].get('k') == 'Member':
+                    freed.add(n['e']['field'])
+                elif n.get('k') == 'Call' and (short(n.get('callee', '')).startswith('recycle') or short(n.get('callee')) == 'free'):
+                    for a in n.get('args', []):
+                        if a is not None and a.get('k') == 'Member' and a.get('base', {}).get('k') == 'This':
+                            freed.add(a['field'])
+                    rc = n.get('recv')
+                    if rc is not None and rc.get('k') == 'Member' and short(n.get('callee')) == 'recycle':
+                        freed.add(rc['field'])
+    out = {}
+    for f in prog.methods_of('Session'):
+        nm = f['qname'].split('::')[-1]
+        if not nm.startswith('set') or len(f.get('params', [])) < 1 or not f['params'][0].get('var') or '*' not in f['params'][0]['type']:
+            continue
+        pn = f['params'][0]['var']['name']
+        for n in walk(f['body']):
+            if n.get('k') == 'Assign' and n['a'].get('k') == 'Member' and n['a'].get('base', {}).get('k') == 'This' and n['a']['field'] in freed and n['b'].get('k') == 'Var' and n['b']['name'] == pn:
+                out[nm] = n['a']['field']
+    return out
+
+
+def r8_ownership(ctx, prog):
+    r = ctx.rule('C17.R8', 'an object handed to the session (which frees it in resetOp) is not freed again, and not handed over after it was freed, on any path', floor=9, engine='E3 typestate (ownership)')
+    setters = owning_setters(prog)
+    if len(setters) < 6:
+        raise AnalysisBroken('only %d owning setters of Session recognised: %s' % (len(setters), sorted(setters)))
+    frees = {'delete', 'free', 'recycleKey', 'recyclePublicKey', 'recyclePrivateKey', 'recycleSymmetricAlgorithm', 'recycleAsymmetricAlgorithm', 'recycleMacAlgorithm', 'recycleHashAlgorithm', 'recycle', 'recycleSymmetricKey', 'recycleParameters'}
+    for f in sorted(prog.functions.values(), key=lambda f: (f['file'], f['line'])):
+        if f.get('class') == 'Session' or not any(short(c.get('callee')) in setters for c in calls(f['body'])):
+            continue
+        ctx.analysed(f)
+        if unanalysable(f):
+            r.undecided(f['qname'], 'ownership', 'function not analysable', file=f['file'], line=f['line'])
+            continue
+        o = Outcomes(f, prog, cenv={}, record_calls=set(setters) | frees | {'resetOp'})
+        o.CAP = 96
+        o.LOOP_ROUNDS = 1
+        o.interesting = None
+        o.go()
+        r.paths += len(o.outcomes)
+        bad = None
+        for oc in o.outcomes:
+            owned = {}       # variable -> line of hand-over
+            freed = {}
+            for e in oc['events']:
+                if e[0] != 'call':
+                    continue
+                if e[1] == 'resetOp':
+                    owned.clear()          # the session released what it owned (and with it the hand-overs made before)
+                    continue
+                if e[1] in setters:
+                    v = e[2][-1] if e[2] else None
+                    if v is None or v in ('NULL', '0', 'nullptr'):
+                        continue
+                    if v in freed:
+                        bad = (oc, '%s is handed to the session by %s at line %s after it was freed at line %s' % (v, e[1], e[3], freed[v]))
+                    owned[v] = e[3]
+                elif e[1] in frees:
+                    for v in e[2]:
+                        if v in owned:
+                            bad = (oc, '%s is freed (%s, line %s) after %s handed it to the session at line %s; Session::resetOp frees it again' % (v, e[1], e[3], [k for k, fl in setters.items()][0] if False else 'the setter', owned[v]))
+                        if re.fullmatch(r'[A-Za-z_]\w*', v or ''):
+                            freed[v] = e[3]
+        n = sum(1 for c in calls(f['body']) if short(c.get('callee')) in setters)
+        site = '%d hand-overs to the session' % n
+        if bad:
+            r.violation(f['qname'], 'hand-overs to the session', bad[1] + ': a dangling pointer is left in the session; the next call on it (or C_CloseSession / C_Finalize) reads freed memory or frees it twice', file=f['file'], line=bad[0]['line'], path=bad[0]['path'])
+        else:
+            r.ok(f['qname'], 'hand-overs to the session', '%d hand-overs, %d paths' % (n, len(o.outcomes)), file=f['file'], line=f['line'])
+
+
 def run(ctx):
     prog = ctx.prog('ossl-file')
     r1_arrays(ctx, prog)
@@ -643,9 +721,12 @@ def run(ctx):
     r5_barrier(ctx, prog)
     r6_terminators(ctx, prog)
     r7_null(ctx, prog)
+    r8_ownership(ctx, prog)
 
 
 MUTANTS = [
+    dict(name='findinit-registers-before-failing-exits', rule='C17.R8', file='src/lib/SoftHSM.cpp', after='CK_RV SoftHSM::C_FindObjectsInit',
+         old='\tFindOperation *findOp = FindOperation::create();', new='\tFindOperation *findOp = FindOperation::create();\n\tsession->setFindOp(findOp);'),
     dict(name='generategeneric-no-template-guard', rule='C17.R1', function='generateGeneric', file='src/lib/SoftHSM.cpp', after='CK_RV SoftHSM::generateGeneric',
          old='\tif (ulCount > (maxAttribs - keyAttribsCount))\n\t\trv = CKR_TEMPLATE_INCONSISTENT;\n', new=''),
     dict(name='tokeninfo-label-unbounded', rule='C17.R2', file='src/lib/slot_mgr/Token.cpp', old='\t\t\tif (label.size() > 32) label.resize(32);\n', new=''),
